@@ -40,7 +40,8 @@ ASSUMPTIONS = [
     "after a region teardown the viewer starts a new event-queue session (ack undefined)",
 ]
 MUST_REACH = {"polls": 3000, "replays_served": 50, "responses_lost": 100, "events_swallowed": 100, "emptied_responses": 20,
-              "injected_delivered": 100, "regions_announced": 30, "teardowns": 20, "states": 100, "histories_judged": 200, "announcing_events_covered": 4, "responses_whose_handling_failed": 30}
+              "injected_delivered": 100, "regions_announced": 30, "teardowns": 20, "states": 100, "histories_judged": 200, "announcing_events_covered": 4, "responses_whose_handling_failed": 30,
+              "steps_on_other_conversations": 300}
 
 KINDS = ["1", "2", "A", "5"]
 ACTIONS = []
@@ -49,6 +50,8 @@ for k in KINDS:
         for sw in (("", "f", "a") if k != "5" else ("",)):
             ACTIONS.append(f"P{k}{lose}{sw}")
 ACTIONS += ["PX", "I", "D"]
+# the other two conversations (a neighbour region's queue, another avatar in the same simulator): walks only
+OTHER_ACTIONS = ["NP1", "NP1L", "NP2", "NI", "ND", "BP1", "BP1L", "BP2a", "BI", "BPA", "BD"]
 
 
 class EQAddon:
@@ -80,29 +83,52 @@ def serial_of(event):
     return repr(event)[:60]
 
 
+class Target:
+    """One event-queue conversation: a viewer polling one region's queue through the proxy."""
+    def __init__(self, name, session, region, eq_url):
+        self.name = name
+        self.session = session
+        self.region = region
+        self.eq_url = eq_url
+        region.update_caps({"EventQueueGet": eq_url})
+        self.viewer_ack = None
+        self.viewer_events = []          # serials in the order received
+        self.sim_next_id = 1
+        self.expected_stream = []        # serials the viewer must end up with, in order (sim events not swallowed + injected)
+        self.pending_injected = []       # serials injected and not yet put into a response
+        self.lost = None                 # content of the processed response that did not reach the viewer
+
+
 class World:
     def __init__(self, ctx):
         self.ctx = ctx
         self.addon = EQAddon()
         self.rig = HTTPRig(addons=[self.addon])
-        self.session = self.rig.add_session(("10.1.0.1", 13001))
-        self.region = self.session.regions[0]
-        self.eq_url = "https://sim1.example.invalid:12043/cap/eq-0001"
-        self.region.update_caps({"EventQueueGet": self.eq_url})
+        session = self.rig.add_session(("10.1.0.1", 13001))
         self.transport = RecTransport()
-        self.session.open_circuit(("10.0.0.1", 40001), self.region.circuit_addr, self.transport)
-        # model
-        self.viewer_ack = None
-        self.viewer_events = []          # serials in the order received
-        self.sim_next_id = 1
+        # "" : the avatar's main region; "N": a neighbour of it that was announced (address + handle) and never got as far as
+        # its handshake; "B": a second avatar (another viewer on the same proxy) standing in the SAME simulator
+        neighbour = session.register_region(circuit_addr=("10.1.0.7", 13007), handle=(2900 << 32) | 1000,
+                                            seed_url="https://sim1.example.invalid:12043/cap/seed-neighbour")
+        other = self.rig.add_session(("10.1.0.1", 13001))
+        self.targets = {
+            "": Target("", session, session.regions[0], "https://sim1.example.invalid:12043/cap/eq-0001"),
+            "N": Target("N", session, neighbour, "https://sim1.example.invalid:12043/cap/eq-neighbour"),
+            "B": Target("B", other, other.regions[0], "https://sim1.example.invalid:12043/cap/eq-other-avatar"),
+        }
+        for t in self.targets.values():
+            t.session.open_circuit(("10.0.0.1", 40001), t.region.circuit_addr, self.transport)
+        self.t = self.targets[""]
         self.next_serial = 1
-        self.expected_stream = []        # serials the viewer must end up with, in order (sim events not swallowed + injected)
-        self.pending_injected = []       # serials injected and not yet put into a response
-        self.lost = None                 # content of the processed response that did not reach the viewer
         self.announced = {}              # addr -> count of announcements
         self.path = []
         self.ok = True
         self.interesting = False
+
+    # the conversation the current step is about
+    session = property(lambda self: self.t.session)
+    region = property(lambda self: self.t.region)
+    eq_url = property(lambda self: self.t.eq_url)
 
     def close(self):
         self.rig.close()
@@ -161,8 +187,9 @@ class World:
                     "Handle": struct.pack("!Q", (3000 + self.next_serial) << 32 | 1000), "IP": socket.inet_aton(addr[0]),
                     "Port": port}]}})
             self.ctx.cover("announcing_events", evs[-1]["message"])
-            self.announced[addr] = self.announced.get(addr, 0) + 1
-            self.last_announced = addr
+            akey = (self.t.session, addr)
+            self.announced[akey] = self.announced.get(akey, 0) + 1
+            self.last_announced = akey
             self.ctx.count("regions_announced")
             self.next_serial += 1
         if kind == "X":
@@ -180,7 +207,7 @@ class World:
     def poll(self, kind, lose, swallow):
         ctx = self.ctx
         ctx.count("polls")
-        req = make_flow(self.eq_url, method=b"POST", content=llsd.format_xml({"ack": self.viewer_ack, "done": False}),
+        req = make_flow(self.eq_url, method=b"POST", content=llsd.format_xml({"ack": self.t.viewer_ack, "done": False}),
                         headers={"Content-Type": "application/llsd+xml"})
         seen_before = len(self.addon.seen)
         regions_before = [r.circuit_addr for r in self.session.regions]
@@ -191,14 +218,14 @@ class World:
         replayed = mitm_flow.response is not None
         if replayed:
             ctx.count("replays_served")
-            if self.lost is None:
+            if self.t.lost is None:
                 self.viol("stale-replay", "the proxy answered a poll from its replay cache although the viewer had received the "
-                          "previous response (or a new event-queue session had begun)", ack=self.viewer_ack)
+                          "previous response (or a new event-queue session had begun)", ack=self.t.viewer_ack)
                 return
             got = llsd.parse_xml(mitm_flow.response.content)
-            if got != self.lost:
+            if got != self.t.lost:
                 self.viol("replay-differs", "the replayed response differs from the response that was lost",
-                          got=repr(got)[:300], lost=repr(self.lost)[:300])
+                          got=repr(got)[:300], lost=repr(self.t.lost)[:300])
             # the response event for an injected response must not re-run handlers / registrations
             state2 = self._pump("response", mitm_flow)
             if len(self.addon.seen) != seen_before or [r.circuit_addr for r in self.session.regions] != regions_before:
@@ -210,11 +237,11 @@ class World:
                     self.viol("replay-rewritten", "a replayed response was modified on its way back")
             self.deliver(content, lose)
             return
-        if self.lost is not None:
+        if self.t.lost is not None:
             # the viewer repeated its poll, the proxy had processed a response for it and should have replayed it
             self.viol("lost-response-not-replayed", "a repeated poll (same ack) was forwarded to the simulator instead of being "
-                      "answered with the previous response", ack=self.viewer_ack, lost=repr(self.lost)[:200])
-            self.lost = None
+                      "answered with the previous response", ack=self.t.viewer_ack, lost=repr(self.t.lost)[:200])
+            self.t.lost = None
         # simulator answers
         if kind == "5":
             mitm_flow.response = make_flow("http://x.invalid/", resp=True, resp_content=b"upstream timeout", status=502,
@@ -227,8 +254,8 @@ class World:
                 self.viol("non-200-modified", "a non-200 event-queue response was modified")
             return
         events = self.new_events(kind)
-        sim_id = self.sim_next_id
-        self.sim_next_id += 1
+        sim_id = self.t.sim_next_id
+        self.t.sim_next_id += 1
         serials = [serial_of(e) for e in events]
         self.addon.swallow = set()
         if swallow == "f":
@@ -257,18 +284,18 @@ class World:
             got_serials = [serial_of(e) for e in got["events"]] if isinstance(got, dict) else None
             if got_serials == serials:
                 pass                                            # passed through, injected events still pending
-            elif got_serials == serials + list(self.pending_injected):
-                self.pending_injected = []
+            elif got_serials == serials + list(self.t.pending_injected):
+                self.t.pending_injected = []
             else:
                 self.viol("events-wrong:after-handler-failure", "after the proxy failed while handling a response the viewer did not "
                           "get exactly the simulator's events (optionally followed by the pending injected events)",
-                          got=got_serials, sent=serials, pending=list(self.pending_injected))
+                          got=got_serials, sent=serials, pending=list(self.t.pending_injected))
                 return
-            self.expected_stream.extend(got_serials)
+            self.t.expected_stream.extend(got_serials)
             self.deliver(got, False)
             return
         kept = [s for s in serials if s not in self.addon.swallow]
-        expect = kept + list(self.pending_injected)
+        expect = kept + list(self.t.pending_injected)
         handled = self.addon.seen[seen_before:]
         if handled != serials:
             self.viol("eq-handlers-not-run-once", "event handlers did not run exactly once per simulator event, in order",
@@ -285,7 +312,7 @@ class World:
                 got_serials = [serial_of(e) for e in got["events"]]
                 if got_serials != expect:
                     mech = "events-wrong"
-                    if self.pending_injected and kept == got_serials:
+                    if self.t.pending_injected and kept == got_serials:
                         mech = "injected-event-not-delivered"
                     elif set(got_serials) - set(expect):
                         mech = "swallowed-or-foreign-event-delivered"
@@ -298,32 +325,33 @@ class World:
                     if s in by_serial and e != by_serial[s]:
                         self.viol("event-content-changed", "a simulator event was changed on its way to the viewer",
                                   got=repr(e)[:200], sent=repr(by_serial[s])[:200])
-            if self.pending_injected:
-                ctx.count("injected_delivered", len(self.pending_injected))
-        self.expected_stream.extend(expect)
-        self.pending_injected = []
+            if self.t.pending_injected:
+                ctx.count("injected_delivered", len(self.t.pending_injected))
+        self.t.expected_stream.extend(expect)
+        self.t.pending_injected = []
         # region registration
         swallowed_announce = any(s in self.addon.swallow for s in serials if isinstance(s, str) and
                                  s.startswith(("enable-", "eac-", "tp-", "cr-")))
         if kind == "A" and swallowed_announce:
             # an announcement an addon swallowed is not acted upon
             self.announced.pop(self.last_announced, None)
-        for addr, n in self.announced.items():
-            have = sum(1 for r in self.session.regions if r.circuit_addr == addr)
+        for (sess, addr), n in self.announced.items():
+            have = sum(1 for r in sess.regions if r.circuit_addr == addr)
             if have != 1:
-                self.viol("region-not-registered-once", "an announced region is not registered exactly once", addr=addr, count=have)
+                self.viol("region-not-registered-once", "an announced region is not registered exactly once (in the session it was "
+                          "announced to)", addr=addr, count=have)
         self.deliver(got, lose)
 
     def deliver(self, content, lose):
         if lose:
             self.ctx.count("responses_lost")
             self.interesting = True
-            self.lost = content if content is not None else None
+            self.t.lost = content if content is not None else None
             return
-        self.lost = None
+        self.t.lost = None
         if isinstance(content, dict):
-            self.viewer_ack = content.get("id")
-            self.viewer_events.extend(serial_of(e) for e in content["events"])
+            self.t.viewer_ack = content.get("id")
+            self.t.viewer_events.extend(serial_of(e) for e in content["events"])
 
     def inject(self):
         s = f"inj-{self.next_serial}"
@@ -333,26 +361,36 @@ class World:
         except Exception as e:
             self.viol("inject-raised", "injecting an event raised", exc=repr(e)[:200])
             return
-        self.pending_injected.append(s)
+        self.t.pending_injected.append(s)
         self.interesting = True
 
     def teardown(self):
         self.ctx.count("teardowns")
         # events that were only in a lost response / still queued die with the old event-queue session
-        if self.lost is not None and isinstance(self.lost, dict):
-            for e in self.lost["events"]:
+        if self.t.lost is not None and isinstance(self.t.lost, dict):
+            for e in self.t.lost["events"]:
                 s = serial_of(e)
-                if s in self.expected_stream:
-                    self.expected_stream.remove(s)
-        self.lost = None
-        self.pending_injected = []
-        self.region.mark_dead()
+                if s in self.t.expected_stream:
+                    self.t.expected_stream.remove(s)
+        self.t.lost = None
+        self.t.pending_injected = []
+        try:
+            self.region.mark_dead()
+        except Exception as e:
+            self.viol("teardown-raised", "tearing a region down raised (its event-queue state may have survived)", exc=repr(e)[:300],
+                      target=self.t.name)
+            return
         self.region.circuit.is_alive = True
-        self.viewer_ack = None
-        self.sim_next_id = 1
+        self.t.viewer_ack = None
+        self.t.sim_next_id = 1
 
     def step(self, action):
         self.path.append(action)
+        self.t = self.targets[""]
+        if action[0] in "NB":
+            self.t = self.targets[action[0]]
+            action = action[1:]
+            self.ctx.count("steps_on_other_conversations")
         if action == "I":
             self.inject()
         elif action == "D":
@@ -364,26 +402,33 @@ class World:
             self.poll(kind, lose, sw)
 
     def finish(self):
-        """End the history with deliveries that are not lost, then judge what the viewer received."""
-        for _ in range(3):
-            if not self.ok:
+        """End the history with deliveries that are not lost, then judge what each viewer received."""
+        for name, t in self.targets.items():
+            self.t = t
+            for _ in range(3):
+                if not self.ok:
+                    return
+                self.path.append(name + "P1(final)")
+                self.poll("1", False, "")
+            got = [s for s in t.viewer_events]
+            if got != t.expected_stream:
+                missing = [s for s in t.expected_stream if s not in got]
+                foreign = [s for s in got if s not in t.expected_stream]
+                dup = sorted({repr(s) for s in got if got.count(s) > 1})
+                mech = "event-lost" if missing else "foreign-event" if foreign else "event-duplicated" if dup else "events-reordered"
+                self.viol("viewer-stream:" + mech, "the events a viewer received are not the surviving simulator events and the "
+                          "injected events of its own conversation, each once and in order", conversation=name or "main",
+                          missing=missing[:6], duplicated=dup[:6], foreign=foreign[:6], got=got[-12:], expected=t.expected_stream[-12:])
                 return
-            self.path.append("P1(final)")
-            self.poll("1", False, "")
         self.ctx.count("histories_judged")
-        got = [s for s in self.viewer_events]
-        if got != self.expected_stream:
-            missing = [s for s in self.expected_stream if s not in got]
-            dup = sorted({repr(s) for s in got if got.count(s) > 1})
-            mech = "event-lost" if missing else "event-duplicated" if dup else "events-reordered"
-            self.viol("viewer-stream:" + mech, "the events the viewer received are not the surviving simulator events and the "
-                      "injected events, each once and in order", missing=missing[:6], duplicated=dup[:6], got=got[-12:],
-                      expected=self.expected_stream[-12:])
 
     def state_key(self):
-        eq = self.region.eq_manager
-        return (self.viewer_ack, self.lost is not None, len(self.pending_injected), len(self.session.regions),
-                eq._last_ack, eq._last_payload is not None, len(eq._queued_events))
+        key = []
+        for t in self.targets.values():
+            eq = t.region.eq_manager
+            key.append((t.viewer_ack, t.lost is not None, len(t.pending_injected), len(t.session.regions),
+                        eq._last_ack, eq._last_payload is not None, len(eq._queued_events)))
+        return tuple(key)
 
 
 def replay_path(ctx, path, judge=True):
@@ -431,9 +476,10 @@ def dfs(ctx, depth, firsts):
 def random_history(ctx, rng, steps):
     w = World(ctx)
     try:
-        weights = [3 if a.startswith("P") else 4 if a == "I" else 1 for a in ACTIONS]
+        acts = ACTIONS + OTHER_ACTIONS
+        weights = [3 if a.lstrip("NB").startswith("P") else 4 if a.endswith("I") else 1 for a in acts]
         for _ in range(steps):
-            w.step(rng.choices(ACTIONS, weights=weights)[0])
+            w.step(rng.choices(acts, weights=weights)[0])
             if not w.ok:
                 break
         if w.ok:
